@@ -17,7 +17,6 @@ Sub-spaces (each a complete product, simplest first; K = 2 quick / 3 thorough):
 import itertools
 import os
 import re
-import sys
 import sysconfig
 import tokenize
 import types
@@ -489,9 +488,7 @@ def check_render(env, case, exc, verb, utf8, ignore, ansi, simple):
     # frame listing
     shown = [e[0] for e in listing]
     if verb == "normal":
-        if shown:
-            return bad("trace:listing-at-normal-verbosity", "frames listed without -v", [], shown)
-        return None
+        return None  # the statement does not say whether frames are listed without -v: nothing demanded
     ignored = lambda f: pattern is not None and re.match(pattern, f[0]) is not None  # noqa
     for h in shown:
         if h not in frames:
@@ -690,5 +687,9 @@ def main():
     rep.assume("style markup aside: nstar()/nreg() in props/_trace.py and this file; SGR sequences removed by an own regex")
     rep.assume("frames of this checker's own file are removed from the traceback before rendering (with_traceback)")
     rep.assume("ExceptionTrace._FRAME_SNIPPET_CACHE, crashtest's Frame._content_cache and linecache are cleared before every case (order independence; the cache itself is C17's subject)")
+    rep.assume("an empty extra line numbered <last line + 1> after the final newline of a file is accepted (pinned by two repo tests)")
+    rep.assume("frame listing at -v/-vv/-vvv: every listed frame is a frame of the exception; frames under the ignored path are absent "
+               "unless debug; every other frame before the failing one is listed at least once (folding of repeats aside) - read off the "
+               "statement's 'frames under an ignored path are left out unless the verbosity is debug'")
     rep.assume("a listed frame is recognised by the renderer's own header format '<n>  <path>:<line> in <function>'; generated sources and messages contain no such text")
     return rep.finish()
